@@ -29,7 +29,7 @@ vars == <<st, hist, stepok, chg>>
 
 BaseCfg == [at |-> "hmac", rscopes |-> <<"offline">>, pkce_all |-> FALSE, pkce_pub |-> FALSE, pkce_plain |-> FALSE,
             par_enf |-> FALSE, no_rt_intro |-> FALSE, l_code |-> 2, l_at |-> 3, l_rt |-> 6, l_dev |-> 2, l_par |-> 2,
-            l_idt |-> 3, store |-> "mem"]
+            l_idt |-> 3, store |-> "mem", sess_noexp |-> FALSE]
 
 CfgWith(a, rs, lrt) == [BaseCfg EXCEPT !.at = a, !.rscopes = rs, !.l_rt = lrt]
 CfgsOne == {BaseCfg}
@@ -39,7 +39,10 @@ CfgsStrategies == {CfgWith(a, rs, 6) : a \in {"hmac", "jwt"}, rs \in {<<>>, <<"o
 CfgsRefresh == {CfgWith(a, rs, lrt) : a \in {"hmac", "jwt"}, rs \in {<<>>, <<"offline">>, <<"b">>}, lrt \in {6, -1}}
 CfgsPkce == {[BaseCfg EXCEPT !.pkce_all = pa, !.pkce_pub = pp, !.pkce_plain = pl] :
                pa \in BOOLEAN, pp \in BOOLEAN, pl \in BOOLEAN}
-CfgsExpiry == {[BaseCfg EXCEPT !.at = a, !.l_rt = lrt, !.l_code = 1, !.l_at = 2, !.l_par = 1, !.l_dev = 1] : a \in {"hmac", "jwt"}, lrt \in {3, -1}}
+CfgsExpiry0 == {[BaseCfg EXCEPT !.at = a, !.l_rt = lrt, !.l_code = 1, !.l_at = 2, !.l_par = 1, !.l_dev = 1] : a \in {"hmac", "jwt"}, lrt \in {3, -1}}
+(* sess_noexp: the application's session type forgets the expiry of (opaque) access tokens: the strategy falls back to
+   requested_at + lifetime; nothing in the specification depends on it *)
+CfgsExpiry == CfgsExpiry0 \cup {[c EXCEPT !.sess_noexp = TRUE] : c \in {x \in CfgsExpiry0 : x.at = "hmac"}}
 CfgsIntrospect == {[BaseCfg EXCEPT !.at = a, !.no_rt_intro = n, !.l_at = 1] : a \in {"hmac", "jwt"}, n \in BOOLEAN}   \* short-lived access tokens: expired callers / expired inspected tokens are reachable
 CfgsDevice == {[BaseCfg EXCEPT !.store = s, !.rscopes = rs] : s \in {"mem", "contract"}, rs \in {<<>>, <<"offline">>}}
 CfgsPar == {[BaseCfg EXCEPT !.par_enf = e] : e \in BOOLEAN}
